@@ -140,7 +140,7 @@ def strategy():
 
 
 def evaluate(env, c):
-    d = env.driver("ts-asan")
+    d = env.driver(c.get("variant", "ts-asan"))
     base = b";".join(c["els"]) + c["trailing"]
     em = c.get("errmode", False)
     pe = c.get("pre_errno", 0)
@@ -202,7 +202,7 @@ def exhaustive_worker(args):
     idx, nshards, maxlen = args
     ctx = _EX["ctx"]
     env = pbt.Env(ctx.run, _EX["builds"])
-    d = env.driver("ts-asan")
+    d = env.driver("nts-asan" if idx % 4 == 3 and "nts-asan" in _EX["builds"] else "ts-asan")
     local = Counters(ctx.known, idx)
     fails = []
     n = 0
@@ -232,8 +232,8 @@ def exhaustive_worker(args):
 
 def main():
     ctx = Ctx(PID, "exploration", RULE)
-    b = ctx.run.build("ts-asan")
-    builds = {"ts-asan": b}
+    b, bn = ctx.run.build_many(["ts-asan", "nts-asan"])
+    builds = {"ts-asan": b, "nts-asan": bn}
     ctx.assumptions = ["chains contain no whitespace (documented restriction)",
                        "verdicts of known filters are computed by the harness in the same process state (getresuid, ioctl on fd 0, "
                        "/proc comm+PPid walk); uid-list items that are not plain decimals are treated as matching nothing"]
@@ -251,7 +251,7 @@ def main():
         ctx.extra["exhaustive_runs"] = ctx.evaluations
         ctx.extra["exhaustive"] = False  # the random part below is not exhaustive
     nw, per = (4, 250) if ctx.quick else (16, 1300)
-    pbt.run(ctx, builds, strategy, evaluate, classify, nw, per)
+    pbt.run(ctx, builds, strategy, evaluate, classify, nw, per, variants=["ts-asan", "ts-asan", "nts-asan"])
     ctx.finish()
 
 
